@@ -58,9 +58,23 @@ def run(chk, tier):
                           ("rscel::types::cel_value::CelValue::binding_error", {}), ("rscel::types::cel_value::CelValue::attribute", {})):
         t = F.body(ctor)
         callers = sorted(F.bodies[x].path for x, ys in cg.edges.items() if t.id in ys and x in F.bodies)
+        def moved_from_allowed(path_, depth_=0):
+            """a module-private helper that only the reviewed sites call: their code, moved"""
+            bs_ = [x_ for x_ in F.bodies.values() if x_.path == path_ and x_.pkg == "rscel"]
+            if len(bs_) != 1 or depth_ > 2 or not str(bs_[0].d.get("vis", "")).startswith("Restricted") or "DefId(0:0 " in str(bs_[0].d.get("vis", "")):
+                return None
+            import lenfacts as _lf
+            if _lf.address_taken(F, bs_[0].id):
+                return None
+            up_ = sorted(set(F.bodies[x].path for x, ys in cg.edges.items() if bs_[0].id in ys and x in F.bodies and x != bs_[0].id))
+            if up_ and all(u_ in allowed or moved_from_allowed(u_, depth_ + 1) for u_ in up_):
+                return up_
+            return None
         for c in callers:
             if c in allowed:
                 chk.ok("R08.2", "caller|%s|%s" % (lib.short(ctor), c), allowed[c])
+            elif moved_from_allowed(c):
+                chk.ok("R08.2", "caller|%s|%s" % (lib.short(ctor), c), "private helper called only by reviewed sites: %s" % [lib.short(u_) for u_ in moved_from_allowed(c)])
             else:
                 chk.bad("R08.2", "caller|%s|%s" % (lib.short(ctor), c),
                         "%s now raises an absent-class error through %s: has()/coalesce() would swallow that failure" % (c, lib.short(ctor)), "")
